@@ -685,6 +685,21 @@ def cmp(op, a, b):
                 return a is not b if (a is None or b is None or isinstance(a, bool)) else a != b
         except TypeError:
             pass
+    if op in ("is", "isnot") and (a is None or b is None):
+        # `x is None` for a choice between None and things that are not None (objects, members, numbers): decided per branch
+        x = b if a is None else a
+        if isinstance(x, T) and x.op == "ite":
+            def _none(v):
+                v = _unfz1(v)
+                if v is None:
+                    return True
+                if isinstance(v, T):
+                    return cmp("is", v, None) if v.op == "ite" else NotImplemented
+                return False
+            l_, r_ = _none(x.args[1]), _none(x.args[2])
+            if l_ is not NotImplemented and r_ is not NotImplemented:
+                res = ite(x.args[0], l_, r_)
+                return res if op == "is" else lnot(res)
     if op in ("in", "notin") and isinstance(a, T) and a.op == "idx" and isinstance(a.args[0], bytes) and isinstance(a.args[1], T) and \
             isinstance(b, (tuple, bytes, list, set, frozenset)) and all(isinstance(x, int) for x in b):
         # TABLE[v] for a constant byte table and an index confined to a range: a member of the set when every entry in that
